@@ -1,6 +1,7 @@
 package main
 
 import (
+	"encoding/json"
 	"encoding/hex"
 	"fmt"
 	"math/big"
@@ -40,7 +41,7 @@ func (iv *c17Inv) keys() []int {
 
 func genC17(c *Ctx) error {
 	c.ShardSize = 150
-	c.Notes["rule"] = "one token chaincode instance; 2-3 invocations, each on its own goroutine with its own simulated transaction: an immediate method, batchExecute with one or two pending transactions, executeTasks with one or two tasks, swapDone whose completion listener runs with the context swapDone installed; every body re-obtains its context (GetStub) 1-3 times, reads its own previous write and writes a key, and is parked before each of these points; a scheduler releases the parked invocations in a random order (all interleavings of the switch points are reachable, nested and overlapping lifetimes). Observed per invocation: status, payload, complete write-set, event - compared with the same proposal run alone over the same committed state - and the keys that landed in its write-set. Non-trivial: the lifetimes of at least two invocations overlap."
+	c.Notes["rule"] = "one token chaincode instance; 2-3 invocations, each on its own goroutine with its own simulated transaction: an immediate method (also behind an argument whose decoding is a switch point of its own), a query with the same body (it reports in whose transaction it finds itself at every step), batchExecute with one or two pending transactions, executeTasks with one or two tasks, swapDone whose completion listener runs with the context swapDone installed; every body re-obtains its context (GetStub) 1-3 times, reads its own previous write and writes a key, and is parked before each of these points; a scheduler releases the parked invocations in a random order (all interleavings of the switch points are reachable, nested and overlapping lifetimes). Observed per invocation: status, payload, complete write-set, event - compared with the same proposal run alone over the same committed state - and the keys that landed in its write-set. Non-trivial: the lifetimes of at least two invocations overlap."
 	n := c.N(150, 3000)
 	for i := 0; i < n; i++ {
 		if i == n/2 {
@@ -241,11 +242,34 @@ func c17Case(c *Ctx) error {
 	tagSeq := 0
 	newTag := func() (string, int) { tagSeq++; return fmt.Sprintf("t%d", tagSeq), tagSeq }
 	swapUsed := false
+	if rng.Intn(4) == 0 {
+		// two invocations of the SAME method, each parking while its argument is decoded
+		for j := 0; j < 2; j++ {
+			tag, tn := newTag()
+			u := 1 + rng.Intn(2)
+			invs = append(invs, &c17Inv{kind: "immediate_arg", tags: []string{tag}, uses: []int{u}, tagNum: []int{tn}, creator: w.Client.Creator,
+				args: strArgs("ga", []string{tag, tag, strconv.Itoa(u)}), txID: w.Peer.NextTxID()})
+		}
+	}
 	for len(invs) < nInv {
 		switch k := rng.Intn(10); {
+		case k < 2:
+			// a query with the same body: what it writes goes nowhere, so "its keys" are the steps at which it found itself
+			// in its own transaction (the body reports the transaction id it sees at every step)
+			tag, tn := newTag()
+			u := 1 + rng.Intn(3)
+			invs = append(invs, &c17Inv{kind: "query", tags: []string{tag}, uses: []int{u}, tagNum: []int{tn}, creator: w.Client.Creator,
+				args: strArgs("gq", []string{tag, strconv.Itoa(u)}), txID: w.Peer.NextTxID()})
 		case k < 4:
 			tag, tn := newTag()
 			u := 1 + rng.Intn(3)
+			if rng.Intn(2) == 0 {
+				// the same through a method one of whose arguments parks while it is decoded: a switch point between the
+				// conversion of the arguments and the call
+				invs = append(invs, &c17Inv{kind: "immediate_arg", tags: []string{tag}, uses: []int{u}, tagNum: []int{tn}, creator: w.Client.Creator,
+					args: strArgs("ga", []string{tag, tag, strconv.Itoa(u)}), txID: w.Peer.NextTxID()})
+				break
+			}
 			invs = append(invs, &c17Inv{kind: "immediate", tags: []string{tag}, uses: []int{u}, tagNum: []int{tn}, creator: w.Client.Creator,
 				args: strArgs("gp", []string{tag, strconv.Itoa(u)}), txID: w.Peer.NextTxID()})
 		case k < 6:
@@ -310,6 +334,7 @@ func c17Case(c *Ctx) error {
 			ch := make(chan struct{})
 			close(ch)
 			h.release[t] = ch
+			h.release["arg:"+t] = ch
 		}
 		gateHub = h
 		res, _ := w.Peer.Simulate("tt", iv.txID, iv.creator, false, iv.args)
@@ -326,6 +351,8 @@ func c17Case(c *Ctx) error {
 		for _, t := range iv.tags {
 			hub.release[t] = make(chan struct{})
 			tagOwner[t] = i
+			hub.release["arg:"+t] = make(chan struct{})
+			tagOwner["arg:"+t] = i
 		}
 	}
 	gateHub = hub
@@ -344,12 +371,41 @@ func c17Case(c *Ctx) error {
 		}
 	}
 	var schedule []string
+	crossed := map[int]bool{}
 	// wait until invocation i parks or finishes
 	settle := func(i int) {
 		select {
 		case tag := <-hub.arrive:
 			if tagOwner[tag] != i {
-				panic("gate of another invocation")
+				// invocation i turns up at a gate of ANOTHER invocation: it is running with that one's data. The schedule ends
+				// here: every gate is opened, everything runs to its end, and the case is recorded as it is (invocation i did
+				// not end as it would alone).
+				crossed[i] = true
+				go func() {
+					for range hub.arrive {
+					}
+				}()
+				for _, ch := range hub.release {
+					close(ch)
+				}
+				pending := 0
+				for n, iv := range invs {
+					if state[n] == 0 { // not started yet: it runs now, with every gate open
+						go func(n int, iv *c17Inv) {
+							res, _ := w.Peer.Simulate("tt", iv.txID, iv.creator, false, iv.args)
+							done <- doneMsg{n, res}
+						}(n, iv)
+					}
+					if state[n] != 2 {
+						pending++
+					}
+				}
+				for ; pending > 0; pending-- {
+					d := <-done
+					results[d.i] = d.res
+					state[d.i] = 2
+				}
+				return
 			}
 			state[i], parkedTag[i] = 1, tag
 		case d := <-done:
@@ -388,6 +444,15 @@ func c17Case(c *Ctx) error {
 			settle(i)
 			continue
 		}
+		if strings.HasPrefix(parkedTag[i], "arg:") {
+			// parked in the decoding of an argument: released, it runs up to the first switch point of the body (no use yet)
+			hub.release[parkedTag[i]] <- struct{}{}
+			settle(i)
+			if state[i] == 2 {
+				schedule = append(schedule, strconv.Itoa(i)) // ended without reaching the body: IDel
+			}
+			continue
+		}
 		// release the parked invocation: one use, then up to the next switch point or to the end
 		hub.release[parkedTag[i]] <- struct{}{}
 		schedule = append(schedule, strconv.Itoa(i))
@@ -422,12 +487,24 @@ func c17Case(c *Ctx) error {
 				seen = append(seen, tn*100+j)
 			}
 		}
+		if iv.kind == "query" {
+			var payload string
+			if err := json.Unmarshal(res.Payload, &payload); err == nil {
+				if a, b := strings.Index(payload, "["), strings.LastIndex(payload, "]"); a >= 0 && b > a {
+					for j, step := range strings.Split(payload[a+1:b], ",") {
+						if strings.HasSuffix(step, "@"+iv.txID) {
+							seen = append(seen, iv.tagNum[0]*100+j)
+						}
+					}
+				}
+			}
+		}
 		sort.Ints(seen)
 		var sk []string
 		for _, k := range seen {
 			sk = append(sk, strconv.Itoa(k))
 		}
-		ok := res.OK()
+		ok := res.OK() && !crossed[i]
 		if iv.kind == "tasks" && ok {
 			out := decodeBatchOut(res, "executeTasks")
 			for _, r := range out.Resp.GetTxResponses() {
